@@ -81,6 +81,9 @@ def configs(tier, seed):
     # a stored message that reaches the restarted queue twice, from the start-up listing and from a pending announcement,
     # with the round trips of either path taking their time
     cfgs.append(dict(backend='redis', backoff='r10', n=2, messages=0, prestored=1, redis_yields=['hget', 'hmget', 'blpop', 'keys'], d=3, dd=1, menu=MENU))
+    # a bounded relay pool that is full while a second message is enqueued, and the storage announces that message meanwhile
+    cfgs.append(dict(backend='dict', backoff='r0x2', n=2, messages=2, harness_wait=True, relay_pool=1, d=2, dd=2, menu=MENU,
+                     script=[['enqueue', 0], ['enqueue', 1], ['announce', 1]]))
     # relays that answer with a sequence (list) instead of a mapping
     for b in ('dict', 'disk', 'shelf'):
         cfgs.append(dict(backend=b, backoff='r0x2', n=2, messages=1, d=0, dd=3, menu=dict(MENU, sequences=True)))
